@@ -14,7 +14,7 @@ TRUSTED = TRUSTED_BASE + ['Hid/Parser.lean: hand-written model of rules.py/gramm
 ASSUMPTIONS = _A + ['soundness of whole parses w.r.t. the declarative context rules is validated by exhaustive placement enumeration, '
                     'not proved by induction over the parser yet; completeness likewise']
 RULE = ('placement enumeration: 9 leaf constructs (ordinary/you/defeat call, try, preempt, ??, break, continue, nested loop) x every path '
-        'of statement wrappers (try body, undo/stop handler, preempt body, while/for/if/else/block) up to depth 2 (thorough 4) x expression '
+        'of statement wrappers (try body, undo/stop handler, preempt body, while/for/if/else/block) up to depth 2 (thorough 3) x expression '
         'wrappers (paren, index, call argument, array literal, ?? left/right) up to depth 2 x three function flavours, plus '
         'global initialisers; accept/reject of hidc.parser.parse vs the permission table; parse suite on all of them; non-trivial = '
         'placement whose verdict agrees, both verdicts occurring')
@@ -66,7 +66,7 @@ def build(flavor, swraps, ewraps, leaf):
 
 
 def run(ctx):
-    sdepth, edepth = ctx.budget((2, 2), (4, 2))
+    sdepth, edepth = ctx.budget((2, 2), (3, 2))
     texts, expect = {}, {}
     n = 0
     for flavor in ('ordinary', 'you', 'defeat'):
